@@ -17,6 +17,16 @@ def run(tier, seed):
     for x in out["traces"]:
         if not x.get("dims_ok", True):
             out["violations"].append(_pipe.violation(x, "output-dimensions", "native-trace", "C01"))
+    # the contraction placement itself: spec/Desugar.tla (model-checked against Denote) vs the real desugar_assignment
+    from .. import desugar_conf
+
+    dc = desugar_conf.run(tier, seed)
+    out["violations"] += dc["violations"]
+    out["coverage"]["states"] += dc["states"]
+    out["coverage"]["transitions"] += dc["transitions"]
+    out["coverage"]["desugar_trees_compared"] = dc["compared"]
+    out["coverage"]["desugar_not_distributable"] = dc["not_distributable"]
+    out["coverage"]["traces_validated_against_impl"] += dc["compared"]
     return out
 
 
